@@ -532,6 +532,9 @@ func (fr *frame) builtin(b *ssa.Builtin, com *ssa.CallCommon, args []Val, st *St
 			return Val{T: "0", Ty: types.Typ[types.Int]}
 		}
 		src := fr.asValue(args[1], st)
+		if g.reg.SortOf(com.Args[1].Type()) == "Str" && dst.Buf.Sort == "Bytes" {
+			src = "(tobytes " + src + ")" // copy(dst []byte, src string)
+		}
 		bsort := dst.Buf.Sort
 		si := g.reg.seqs[bsort]
 		dlen := fr.bufLen(dst.Buf, st)
